@@ -9,7 +9,7 @@
    has no repetition and lists exactly the columns that the finish made known.  The C's callback sequence
    (kind, ESI, order) is compared with the model's log for every session with a registered callback. *)
 From Coq Require Import Arith List Bool.
-From OFV Require Import ListAux RSApi RSApiProofs ITModel ITProofs MLModel Events EventsProofs.
+From OFV Require Import ListAux RSApi RSApiProofs ITModel ITProofs MLModel Events EventsProofs MLNoDecode.
 Import ListNotations.
 
 Theorem rs_callback_events :
@@ -57,6 +57,24 @@ Theorem ldpc_finish_one_callback_per_newly_decoded_symbol :
   (forall e, known s e = false -> known (o_st o) e = true -> In e l).
 Proof. exact ml_finish_ev_log_wf. Qed.
 
+(* In a session the simplification stage of of_finish_decoding never decodes anything: the streaming decoder has consumed every equation
+   with a single unknown symbol (the "decode and recurse" branch of of_linear_binary_code_simplify_linear_system_with_a_symbol is dead code
+   for every history, which is also what a coverage measurement of the C shows).  Hence the callbacks of of_finish_decoding are exactly the
+   sources recovered by the Gaussian elimination, in increasing ESI order, and none when it gives up. *)
+Theorem ldpc_finish_callbacks_come_from_the_gaussian_stage :
+  forall (Sy : Type) (sxor : Sy -> Sy -> Sy) (s0 : Sy) (H0 : list (list nat)) (R0 N0 : nat),
+  length H0 = R0 -> (forall i, i < R0 -> NoDup (nth i H0 [])) ->
+  (forall i c, i < R0 -> In c (nth i H0 []) -> c < N0) -> (forall i, i < R0 -> 2 <= length (nth i H0 [])) -> R0 <= N0 ->
+  forall (fuel0 : nat) (hist : list (nat * Sy)) (s : st Sy) (fuel : nat) (perm : list nat) (o : outcome Sy) (l : list nat),
+  (forall ev, In ev hist -> fst ev < N0) ->
+  run Sy sxor s0 H0 R0 N0 fuel0 hist = Some s -> fst (is_complete s) = false ->
+  ml_finish_ev sxor s0 fuel perm s = Some (o, l) ->
+  l = (if o_solved o
+       then filter (fun c => match nth c (tab s) None with None => true | Some _ => false end) (map (fun i => R0 + i) (seq 0 (N0 - R0)))
+       else []).
+Proof. intros Sy sxor s0 H0 R0 N0 A B C D E. exact (ml_finish_ev_simplification_silent_run Sy sxor s0 H0 R0 N0 A B C D E). Qed.
+
+Print Assumptions ldpc_finish_callbacks_come_from_the_gaussian_stage.
 Print Assumptions rs_callback_events.
 Print Assumptions ldpc_logged_models_are_the_models.
 Print Assumptions ldpc_streaming_one_callback_per_decoded_symbol.
